@@ -612,7 +612,10 @@ def r5_accessors(chk, F, rule="C09.R5", which=(("year", 0), ("month_name", 1))):
                 nm = eng.types[v.tid]["variants"][v.vi]["name"] if isinstance(v, Enum) else None
                 if k is not None and 1 <= k <= 12:
                     chk.ob(rule, "Epoch::month_name", "month-%d->%s" % (k, MONTHS[k - 1]), nm == MONTHS[k - 1], "finite map", detail=nm)
-    # day_of_year / duration_in_year use year() (C20.R3 checks the anchor); year() is checked above
+    # day_of_year / duration_in_year: elapsed time in the epoch's own scale since from_gregorian(self.year(), 1, 1, .., own scale), i.e. the
+    # day-of-year accessors agree with the fields (the obligations are C20.R3's, decided here under this property's clause as well)
+    from .c20 import day_of_year
+    day_of_year(chk, F, rule="C09.R5")
 
 
 def run(chk, F, tier):
